@@ -169,7 +169,18 @@ func visitInstr(fr *frame, instr ssa.Instruction) continuation {
 	case *ssa.Panic:
 		panic(targetPanic{v: fr.get(instr.X)})
 
-	case *ssa.Send, *ssa.Go, *ssa.Select:
+	case *ssa.Go:
+		// bounded scheduler: the new goroutine runs to completion either right
+		// here or when the harness reaches vRunGoroutines() / the entry returns
+		fn, args := prepareCall(fr, &instr.Call)
+		r.note("go statement: the goroutine body is executed atomically, either at the spawn point or at the next vRunGoroutines()/end of the entry (two schedules per goroutine)")
+		if r.chooseFree(2, "goroutine-schedule") == 0 {
+			r.runGoroutine(fr, fn, args)
+		} else {
+			r.pendingGo = append(r.pendingGo, pendingGo{fn, args})
+		}
+
+	case *ssa.Send, *ssa.Select:
 		panic(engineError{fmt.Sprintf("unsupported instruction %T in %s", instr, fr.fn)})
 
 	case *ssa.Store:
@@ -817,4 +828,23 @@ func (fr *frame) tryMerge(c *Term) bool {
 	fr.prevBlock, fr.block = predT, join
 	fr.skipPhis = true
 	return true
+}
+
+type pendingGo struct {
+	fn   value
+	args []value
+}
+
+// runGoroutine executes a spawned function to completion; a panic in it
+// crashes the program (as in Go), which the caller sees as a target panic.
+func (r *run) runGoroutine(fr *frame, fn value, args []value) {
+	r.call(nil, token.NoPos, fn, args)
+}
+
+func (r *run) flushGoroutines() {
+	for len(r.pendingGo) > 0 {
+		g := r.pendingGo[0]
+		r.pendingGo = r.pendingGo[1:]
+		r.runGoroutine(nil, g.fn, g.args)
+	}
 }
